@@ -280,6 +280,44 @@ fn boundary_walk(rng: &mut Rng) -> String {
     s
 }
 
+/// Lexer and tracer stress: a (possibly multi-line) source over a character set rich in
+/// specials - `^^` notation, control characters, trailing blanks, tabs, multi-byte characters,
+/// CRLF, no final newline - usually preceded by a line that changes \\endlinechar and a few
+/// category codes, so that the same text is lexed under many regimes. Every token gets a trace
+/// key; errors raised anywhere in it must still be located and rendered.
+fn lexer_stress(rng: &mut Rng) -> Vec<String> {
+    let mut lines = vec![];
+    if rng.chance(2, 3) {
+        let mut pre = String::new();
+        pre.push_str(["", "\\endlinechar=-1 ", "\\endlinechar=32 ", "\\endlinechar=92 ", "\\endlinechar=37 ", "\\endlinechar=65 ", "\\endlinechar=127 ", "\\endlinechar=123 ", "\\endlinechar=94 "][rng.below(9)]);
+        for _ in 0..rng.below(4) {
+            let ch = [32, 92, 123, 125, 37, 94, 13, 10, 9, 65, 48, 126, 35, 36, 233, 8364, 0, 127][rng.below(18)];
+            let cat = rng.below(16);
+            pre.push_str(&format!("\\catcode{ch}={cat} "));
+        }
+        lines.push(pre);
+    }
+    let atoms = [
+        "a", "Z", "0", " ", "  ", "\t", "\\", "{", "}", "%", "^^", "^^M", "^^?", "^^@", "^^a", "^^5c", "^^7b", "^", "~", "#", "$", "&", "_",
+        "é", "€", "\u{1D518}", "\u{7f}", "\u{0}", "\\relax", "\\count", "\\def", "\\the", "\\undefinedcs", "\\é", "\\ ", "\\^^M", "\\^^", "1", "=", "-", "`",
+    ];
+    let nl = ["\n", "\n", "\r\n", " \n", "   \n", "\n\n", "%\n", "\r"];
+    let mut src = String::new();
+    let nlines = 1 + rng.below(5);
+    for k in 0..nlines {
+        for _ in 0..rng.below(9) {
+            src.push_str(atoms[rng.below(atoms.len())]);
+        }
+        if k + 1 < nlines || rng.chance(1, 2) {
+            src.push_str(nl[rng.below(nl.len())]);
+        }
+    }
+    lines.push(src);
+    // restore sane lexing for whatever follows in the job
+    lines.push("\\endlinechar=13 \\catcode32=10 \\catcode92=0 \\catcode123=1 \\catcode125=2 \\catcode37=14 \\catcode65=11 \\catcode48=12 %".to_string());
+    lines
+}
+
 /// Many recoverable errors in one line: 99, 100, 101 ... of them, in whatever interaction mode
 /// the job is in (error counters, logs that grow, limits).
 fn error_storm(rng: &mut Rng) -> String {
@@ -411,8 +449,30 @@ impl Property for C09 {
             } else {
                 template_line(&mut rng, &vocab)
             };
+            // One time in five the text does not go into the main input but into a file that is
+            // \\input or \\read: the same errors must be located inside files and streams too.
+            if rng.chance(1, 5) {
+                let name = format!("z{}", rng.below(3));
+                let content = if rng.chance(1, 2) { format!("{l}\n") } else { l.clone() };
+                env.files.retain(|(n, _)| *n != format!("{name}.tex"));
+                env.files.push((format!("{name}.tex"), content.into_bytes()));
+                let user = if rng.chance(1, 2) {
+                    format!("\\input {name} ")
+                } else {
+                    format!("\\openin5={name} \\read5 to\\xa \\xa \\read5 to\\xa \\xa ")
+                };
+                let at = 1 + rng.below(out.len());
+                out.insert(at, user);
+            } else {
+                let at = 1 + rng.below(out.len());
+                out.insert(at, l);
+            }
+        }
+        if rng.chance(1, 3) {
             let at = 1 + rng.below(out.len());
-            out.insert(at, l);
+            for (k, l) in lexer_stress(&mut rng).into_iter().enumerate() {
+                out.insert(at + k, l);
+            }
         }
         // Faults: at least one in 2 of 3 runs.
         let mut damage = vec![];
